@@ -24,6 +24,7 @@ type desc struct {
 	Kind string           `json:"kind"`
 	Sc   servlib.Scenario `json:"sc"`
 	Lens []int            `json:"lens,omitempty"` // lengths of the complete requests, in order
+	Stop int              `json:"stop,omitempty"` // the handler of this request starts Shutdown
 }
 
 func reqChunk(rs []servlib.Req, from int) ([]byte, []int) {
@@ -145,6 +146,45 @@ func build(r *rand.Rand, kind string, cfg servlib.Cfg, eof bool, n int) desc {
 		if n < 2 {
 			d.Sc.GoneAt = 0 // nothing is idle before the first request
 		}
+	case "tlsh2", "tlsfail", "tlsnone": // the conn offers Handshake(): ALPN h2 -> NextProto handler; handshake error; no protocol
+		d.Sc.TLS = map[string]string{"tlsh2": "h2", "tlsfail": "fail", "tlsnone": "none"}[kind]
+		b := get.Bytes(1)
+		d.Sc.Steps = []servlib.Step{{Chunk: b, Wait: true}}
+		d.Lens = []int{len(b)}
+		d.Sc.EndEOF = true
+		d.Sc.Cfg.ReadTimeoutMs = 0
+	case "shutdown": // the handler of request k starts Shutdown (Serve only)
+		for i := 1; i <= n; i++ {
+			b := get.Bytes(i)
+			d.Sc.Steps = append(d.Sc.Steps, servlib.Step{Chunk: b, Wait: true})
+			d.Lens = append(d.Lens, len(b))
+		}
+		k := 1 + r.Intn(n)
+		d.Sc.Ops = make([][]servlib.Op, n)
+		d.Sc.Ops[k-1] = []servlib.Op{{K: "shutdown"}}
+		d.Stop = k
+		d.Sc.Cfg.ServeConn = false
+		d.Sc.Cfg.CloseOnShutdown = r.Intn(2) == 0
+		d.Sc.EndEOF = true
+		d.Sc.Cfg.ReadTimeoutMs = 0
+	case "ops": // handlers that time out, set close, replace the response, skip the body; rejected expectations
+		d.Sc.Cfg.XMode = r.Intn(3)
+		d.Sc.Ops = make([][]servlib.Op, n)
+		for i := 1; i <= n; i++ {
+			q := servlib.Req{}
+			if r.Intn(3) == 0 {
+				q = servlib.Req{Method: "POST", Body: []byte("0123456789"), Expect: r.Intn(2) == 0}
+			}
+			b := q.Bytes(i)
+			d.Sc.Steps = append(d.Sc.Steps, servlib.Step{Chunk: b, Wait: true})
+			d.Lens = append(d.Lens, len(b))
+			d.Sc.Ops[i-1] = [][]servlib.Op{nil, {{K: "timeout"}}, {{K: "close"}}, {{K: "error", N: 500}}, {{K: "skipbody"}}, {{K: "timeoutclose"}}}[r.Intn(6)]
+			st := 100
+			if r.Intn(3) == 0 {
+				st = 417
+			}
+			d.Sc.XStatus = append(d.Sc.XStatus, st)
+		}
 	case "rejconc", "rejip":
 		d.Sc.Reject = map[string]string{"rejconc": "conc", "rejip": "perip"}[kind]
 		b := get.Bytes(1)
@@ -155,7 +195,7 @@ func build(r *rand.Rand, kind string, cfg servlib.Cfg, eof bool, n int) desc {
 	return d
 }
 
-var kinds = []string{"gone", "nothing", "crlf", "partial", "garbage", "sep", "sepclose", "pipe", "split", "post", "hijack", "hijacknr", "rejconc", "rejip"}
+var kinds = []string{"gone", "tlsh2", "tlsfail", "tlsnone", "shutdown", "ops", "nothing", "crlf", "partial", "garbage", "sep", "sepclose", "pipe", "split", "post", "hijack", "hijacknr", "rejconc", "rejip"}
 
 func corpus() []desc {
 	r := rand.New(rand.NewSource(7))
@@ -224,7 +264,18 @@ func run(d desc) hlib.Case {
 	if d.Sc.GoneAt > 0 {
 		gone = hlib.Some(hlib.N(uint64(d.Sc.GoneAt)))
 	}
-	coq := hlib.App("C14", d.Sc.Cfg.Entry(), ad, d.Sc.Cfg.Coq(), servlib.OpsCoq(d.Sc.Ops), gone, hlib.HexList(chunks),
+	if d.Sc.TLS == "h2" || d.Sc.TLS == "fail" {
+		ad = "Delegated"
+	}
+	stop := hlib.None()
+	if d.Stop > 0 {
+		stop = hlib.Some(hlib.N(uint64(d.Stop)))
+	}
+	var xst []string
+	for _, x := range d.Sc.XStatus {
+		xst = append(xst, hlib.Z(int64(x)))
+	}
+	coq := hlib.App("C14", d.Sc.Cfg.Entry(), ad, d.Sc.Cfg.Coq(), servlib.OpsCoq(d.Sc.Ops), hlib.List(xst), stop, gone, hlib.HexList(chunks),
 		servlib.TailCoq(d.Sc.EndEOF), hlib.List(states), hlib.List(actives))
 	size := 0
 	for _, c := range chunks {
